@@ -77,7 +77,8 @@ func runBitHistory(c *Call, slot *CallResult) {
 		return true
 	}
 
-	for i := range c.Ops {
+	// one operation; false = stop (a divergence has been recorded)
+	step := func(i int) bool {
 		op := &c.Ops[i]
 		before := len(model)
 		switch op.Op {
@@ -87,7 +88,7 @@ func runBitHistory(c *Call, slot *CallResult) {
 			stats["switch"]++
 		case "new":
 			if op.A < 0 {
-				continue
+				return true
 			}
 			bl = utils.NewBitList(op.A)
 			model = make([]bool, op.A)
@@ -101,13 +102,46 @@ func runBitHistory(c *Call, slot *CallResult) {
 			stats["addbit"]++
 		case "addbits":
 			if op.N < 0 || op.N > 64 {
-				continue
+				return true
 			}
 			bl.AddBits(op.A, byte(op.N))
 			for k := op.N - 1; k >= 0; k-- {
 				model = append(model, (uint64(int64(op.A))>>uint(k))&1 == 1)
 			}
 			stats["addbits"]++
+		case "fill":
+			// N bits of a pattern, appended in chunks of A bits (bulk growth without a huge op list)
+			if op.N < 0 || op.N > 8_000_000 {
+				return true
+			}
+			chunk := op.A
+			if chunk <= 0 {
+				chunk = 4096
+			}
+			x := uint64(op.Reads)*0x9e3779b97f4a7c15 + 1
+			bits := make([]bool, 0, chunk)
+			for done := 0; done < op.N; {
+				bits = bits[:0]
+				for len(bits) < chunk && done < op.N {
+					var b bool
+					switch {
+					case len(op.Bs) > 0:
+						b = op.Bs[done%len(op.Bs)] // repeating pattern
+					case op.V:
+						b = true
+					default:
+						x ^= x << 13
+						x ^= x >> 7
+						x ^= x << 17
+						b = x&1 == 1
+					}
+					bits = append(bits, b)
+					done++
+				}
+				bl.AddBit(bits...)
+				model = append(model, bits...)
+			}
+			stats["fill"]++
 		case "addbyte":
 			bl.AddByte(byte(op.A))
 			for k := 7; k >= 0; k-- {
@@ -116,28 +150,28 @@ func runBitHistory(c *Call, slot *CallResult) {
 			stats["addbyte"]++
 		case "set":
 			if op.A < 0 || op.A >= len(model) {
-				continue
+				return true
 			}
 			bl.SetBit(op.A, op.V)
 			model[op.A] = op.V
 			stats["set"]++
 			if !window(i, op.A-40, op.A+40) {
-				return
+				return false
 			}
 		case "get":
 			if op.A < 0 || op.A >= len(model) {
-				continue
+				return true
 			}
 			if got := bl.GetBit(op.A); got != model[op.A] {
 				fail(i, "GetBit(%d) = %v, model says %v", op.A, got, model[op.A])
-				return
+				return false
 			}
 			stats["get"]++
 		case "len":
 			stats["len"]++
 		case "bytes":
 			if !bytesEq(i, "GetBytes()", bl.GetBytes()) {
-				return
+				return false
 			}
 			stats["bytes"]++
 		case "iter":
@@ -161,23 +195,23 @@ func runBitHistory(c *Call, slot *CallResult) {
 						// drain so that no producer is stranded by the harness itself
 						for range ch {
 						}
-						return
+						return false
 					}
 					if bl.Len() != len(model) {
 						fail(i, "Len() during iteration = %d, model says %d", bl.Len(), len(model))
 						for range ch {
 						}
-						return
+						return false
 					}
 				}
 				n++
 				if n > len(model)/8+16 {
 					fail(i, "IterateBytes produced more than %d bytes for %d bits", n, len(model))
-					return
+					return false
 				}
 			}
 			if !bytesEq(i, "IterateBytes()", got) {
-				return
+				return false
 			}
 			stats["iter"]++
 			stats["iter_bytes"] += len(got)
@@ -207,7 +241,7 @@ func runBitHistory(c *Call, slot *CallResult) {
 				guard++
 				if guard > k*(len(model)/8+20)*4 {
 					fail(i, "interleaved IterateBytes streams did not finish")
-					return
+					return false
 				}
 				x = x*1664525 + 1013904223
 				j := int(x>>16) % k
@@ -235,26 +269,26 @@ func runBitHistory(c *Call, slot *CallResult) {
 				v, ok := rt.Recv2(chans[j], 0)
 				if !ok {
 					closed[j] = true
-					continue
+					return true
 				}
 				gots[j] = append(gots[j], v)
 				if len(gots[j]) > len(model)/8+16 {
 					fail(i, "IterateBytes stream %d produced too many bytes", j)
-					return
+					return false
 				}
 			}
 			for j := range gots {
 				if !bytesEq(i, "IterateBytes() stream "+string(rune('A'+j))+" of "+string(rune('0'+k))+" concurrent streams", gots[j]) {
-					return
+					return false
 				}
 			}
 			stats["itern"]++
 		default:
-			continue
+			return true
 		}
 		if bl.Len() != len(model) {
 			fail(i, "Len() = %d, model says %d", bl.Len(), len(model))
-			return
+			return false
 		}
 		if len(model) > stats["max_len"] {
 			stats["max_len"] = len(model)
@@ -265,15 +299,32 @@ func runBitHistory(c *Call, slot *CallResult) {
 		// appended region plus what precedes it
 		if len(model) > before {
 			if !window(i, before-70, len(model)) {
-				return
+				return false
 			}
 		}
 		// whole content: always for short lists, sampled for long ones
 		if len(model) <= 2048 || cheapHash(histID, i)%16 == 0 || i == len(c.Ops)-1 {
 			if !window(i, 0, len(model)) {
-				return
+				return false
 			}
 			stats["full_checks"]++
+		}
+		return true
+	}
+	for i := range c.Ops {
+		if c.Ops[i].Go {
+			// the same list, used by another goroutine strictly after this one (hand-over through a
+			// channel) and handed back: nothing may depend on WHICH goroutine touches the list
+			done := make(chan bool)
+			go func() { done <- step(i) }()
+			if !<-done {
+				return
+			}
+			stats["handoffs"]++
+			continue
+		}
+		if !step(i) {
+			return
 		}
 	}
 	// final: both byte views agree with the model
